@@ -46,12 +46,24 @@ class C02(Property):
 
     def cases(self, rng, tier):
         n = 40 if tier == 'quick' else 1200
+        # family: responses that are multiples of one another + rhs_checking in sub-groups
+        for _ in range(8 if tier == 'quick' else 150):
+            yield {'gen_seed': rng.randrange(10 ** 9),
+                   'opts': {'safe_indices': True, 'implicit': rng.random() < 0.3,
+                            'scaling': rng.random() < 0.3, 'array_scaling': True,
+                            'cycles': False, 'resp_chain': True, 'n_comps': (3, 6)},
+                   'cfg': {'linear': rng.choice([None, 'runonce', 'lbgs', 'direct']), 'nonlinear': None,
+                           'sub_linear': rng.choice(['direct', 'direct', 'krylov']),
+                           'rhs_checking': rng.choice([True, True, {'check_zero': True}]),
+                           'jac': None, 'partials': rng.choice([None, 'dense', 'sparse'])},
+                   'vseed': rng.randrange(10 ** 6)}
         for _ in range(n):
             cyc = rng.random() < 0.3
             cfg = {'linear': rng.choice(['direct', 'direct_asm', 'krylov', 'lbgs']) if cyc
                    else rng.choice([None, 'runonce', 'direct', 'direct_asm', 'krylov', 'lbgs']),
                    'nonlinear': rng.choice(['nlbgs', 'newton']) if cyc else None,
-                   'sub_linear': rng.choice([None, None, 'direct']),
+                   'sub_linear': rng.choice([None, None, 'direct', 'krylov']),
+                   'rhs_checking': rng.choice([None, True, True, {'check_zero': True}]),
                    'jac': rng.choice([None, 'dense', 'csc']),
                    'partials': rng.choice([None, None, 'dense', 'matfree', 'sparse'])}
             if cfg['linear'] == 'direct_asm' and cfg['jac'] is None:
@@ -59,7 +71,8 @@ class C02(Property):
             yield {'gen_seed': rng.randrange(10 ** 9),
                    'opts': {'safe_indices': rng.random() < 0.5, 'implicit': rng.random() < 0.4,
                             'scaling': rng.random() < 0.3, 'array_scaling': True,
-                            'cycles': 'converging' if cyc else False},
+                            'cycles': 'converging' if cyc else False,
+                            'resp_chain': rng.random() < 0.5},
                    'cfg': cfg, 'vseed': rng.randrange(10 ** 6)}
 
     def _md(self, case):
@@ -213,6 +226,14 @@ class C02(Property):
                     model.run_solve_linear('rev')
                     y = model._dresiduals.asarray().copy()
                     T('solve_linear', float(wo @ x), float(y @ vr), float(np.abs(wo) @ np.abs(x)) + 1.0)
+                    # the reverse solve is linear: multiples of an earlier right-hand side (what a
+                    # LinearRHSChecker cache sees when one response is a multiple of another)
+                    for k in (-2.5, -0.5, 3.0, -1.0):
+                        model._dresiduals.set_val(0.0); model._doutputs.set_val(k * wo)
+                        model.run_solve_linear('rev')
+                        y2 = model._dresiduals.asarray().copy()
+                        T('solve_linear_multiple', float((k * wo) @ x), float(y2 @ vr),
+                          abs(k) * float(np.abs(wo) @ np.abs(x)) + 1.0)
                 except Exception as e:
                     res['solve_error'] = type(e).__name__ + ': ' + str(e)[:200]
         except Exception as e:
